@@ -49,7 +49,7 @@ template <class T, int E, class I, class J, class K, class A, class B, class C, 
     using cm = triplet_flop_cost<I, J, K, A, B, C>;
     j.lib[0] = (int)cm::which_variant; j.libname[0] = "lib.triplet.which_variant";
     j.lib[1] = (int)cm::min_cost;      j.libname[1] = "lib.min_cost";
-    j.nlib = 2;
+    j.nlib = 2; j.strict_model = true;
 #endif
     es::run_job<T>(fx, j);
 }
@@ -74,7 +74,7 @@ template <class T, int E, class I, class J, class K, class L, class A, class B, 
     j.lib[0] = (int)cm::which_variant; j.libname[0] = "lib.quartet.which_variant";
     j.lib[1] = (int)cm::min_cost;      j.libname[1] = "lib.min_cost";
     j.lib[2] = InnerVariant<cm, (int)cm::which_variant>::value; j.libname[2] = "lib.quartet.inner_variant";
-    j.nlib = 3;
+    j.nlib = 3; j.strict_model = true;
 #endif
     es::run_job<T>(fx, j);
 }
